@@ -313,6 +313,14 @@ MUTANTS = [
    (CPYX, """            (abs(D[s,t] - D[k,t]) < eps and abs(D[k,l] - D[s,l]) < eps) or
             (abs(D[s,t] - D[s,l]) < eps and abs(D[k,l] - D[k,t]) < eps))""", """            (abs(D[s,t] - D[k,t]) < eps or abs(D[s,t] - D[s,l]) < eps) and
             (abs(D[k,l] - D[s,l]) < eps or abs(D[k,l] - D[k,t]) < eps))""")]},
+ {"name": "c06_splitted_copy_edits_weights", "property": "C06", "edits": [
+   (NW, "        new_w[node] = (1.0 - proportion) * w[node]\n", "        w[node] *= (1.0 - proportion)\n        new_w[node] = w[node]\n")]},
+ {"name": "c06_positional_entry_edited", "property": "C06", "edits": [
+   ("src/pyunicorn/core/interacting_networks.py", """        nsi_shortest_paths = shortest_paths + np.eye(len(shortest_paths))
+        nsi_shortest_paths[np.isinf(nsi_shortest_paths)] = self.N - 1
+""", """        shortest_paths[np.isinf(shortest_paths)] = self.N - 1
+        nsi_shortest_paths = shortest_paths + np.eye(len(shortest_paths))
+""")]},
  {"name": "c06_region_indices_in_place", "property": "C06", "edits": [
    ("src/pyunicorn/core/geo_grid.py", "remapped_region = np.array(region).reshape(len(region)//2, 2)", "remapped_region = region.reshape(len(region)//2, 2)")]},
  {"name": "c06_rescale_in_place", "property": "C06", "edits": [
